@@ -287,7 +287,7 @@ def run(ctx):
     src = ctx.src
     for rid, text in (
         ('C18.R1', 'stores/pops on policy_store use keys that are guarded against reserved_policies on the path or come from policy_map/policy_cache keys; stores into map/cache are themselves guarded'),
-        ('C18.R2', 'every mapping-assuming operation on a value reached from json.loads is dominated by isinstance(x, dict) or enclosed by a try that converts to ValueError'),
+        ('C18.R2', 'every mapping-assuming operation on a value reached from json.loads is dominated by isinstance(x, dict) or enclosed by a try that converts to ValueError; every table/enum lookup keyed by document data is enclosed by a try that converts KeyError (and TypeError when the key is an arbitrary JSON value) to ValueError'),
         ('C18.R3', 'in scan_policies no policy structure is updated for a file before read_policy_from_file(f) returned normally; the ValueError arm skips the file'),
         ('C18.R4', 'policy_store[k] and policy_map[k] are assigned together, and popped together with policy_cache[k]'),
         ('C18.R5', 'an overwritten definition owned by another file is appended to policy_cache[k] (previous owner file and definition) before the overwrite; restore pops the last entry and uses the same tuple positions; disassociate filters on the file position'),
@@ -556,11 +556,13 @@ def run(ctx):
     # ---------------- R2 shape taint in the parser
     pt = src.tree(POLICY)
     n_ops = 0
+    n_lookups = 0
     for fname in ('read_policy_from_file', 'parse_policy'):
         fn = get_function(pt, fname)
         g2 = CFG(fn)
         rd2 = ReachingDefs(g2)
         tainted = set()
+        keyvars = set()
         if fname == 'parse_policy':
             tainted.add(params(fn, skip_self=False)[0])
         changed = True
@@ -593,6 +595,9 @@ def run(ctx):
                         if isinstance(inner, tuple) and inner[0] == 'iter':
                             t_ = any(isinstance(x, ast.Name) and x.id in tainted for x in ast.walk(inner[1])) or (isinstance(inner[1], ast.Call) and call_name(inner[1]) == 'json.loads')
                             if val[2] == 0:
+                                if t_ and var not in keyvars:
+                                    keyvars.add(var)
+                                    changed = True
                                 t_ = False
                     if t_:
                         tainted.add(var)
@@ -606,6 +611,23 @@ def run(ctx):
                         var, op = x.func.value.id, '.%s()' % x.func.attr
                     elif isinstance(x, ast.Call) and (call_name(x) or '').startswith('six.iter') and x.args and isinstance(x.args[0], ast.Name) and x.args[0].id in tainted:
                         var, op = x.args[0].id, call_name(x)
+                    # table lookups keyed by document data: enums.X[k] / table[k]
+                    if isinstance(x, ast.Subscript) and isinstance(x.ctx, ast.Load) and isinstance(x.slice, ast.Name) and (x.slice.id in tainted or x.slice.id in keyvars) \
+                            and not (isinstance(x.value, ast.Name) and x.value.id in tainted):
+                        n_lookups += 1
+                        k = x.slice.id
+                        need = {'KeyError'} if k in keyvars and k not in tainted else {'KeyError', 'TypeError'}
+                        okl = False
+                        for tr in n.tries:
+                            for h in tr.handlers:
+                                cc = handler_catches(h)
+                                covers = '*' in cc or need <= set(cc) or ('LookupError' in cc and need - {'KeyError'} <= set(cc))
+                                if covers and any(isinstance(s_, ast.Raise) and isinstance(s_.exc, ast.Call) and call_name(s_.exc) == 'ValueError' for s_ in ast.walk(h)):
+                                    okl = True
+                        ctx.check(okl, 'C18.R2', '%s|%s[%s]' % (fname, U(x.value), k), '%s:%s %s' % (POLICY, x.lineno, fname),
+                                  'lookup keyed by document data is inside a try that turns %s into ValueError' % '/'.join(sorted(need)),
+                                  '%s[%s] is keyed by %s; %s can escape (the handler around it does not catch it or does not raise ValueError), and the monitor catches ValueError only: the scan aborts instead of rejecting the file'
+                                  % (U(x.value), k, 'a JSON object key (a string)' if need == {'KeyError'} else 'an arbitrary JSON value (possibly a list or object, which is unhashable)', '/'.join(sorted(need))))
                     if var is None:
                         continue
                     n_ops += 1
@@ -624,6 +646,7 @@ def run(ctx):
                     ctx.check(shaped, 'C18.R2', '%s|%s%s' % (fname, var, op), site, '%s%s on a dict-checked value' % (var, op),
                               '%s%s assumes a JSON object, but %s comes from json.loads unchecked: a list/number/string there raises AttributeError, which the monitor does not catch (it catches ValueError only)' % (var, op, var))
     ctx.count('mapping_assuming_operations', n_ops, 5)
+    ctx.count('document_keyed_lookups', n_lookups, 3)
     ctx.not_decided += ['the shadow/restore semantics over arbitrary sequences of file events (a runtime state machine; model checking would be the fitting technique)',
                         'mtime granularity / files changing during a scan']
     ctx.assumptions += ['json.loads returns arbitrary JSON shapes; JSON object keys are strings', 'multiprocessing DictProxy behaves like a dict for get/pop/keys/item assignment']
